@@ -13,7 +13,8 @@ META = {
     "rule": "obligations = per configuration x path x output (rho+, v+ of the stepped link, w+ of its origin) x "
     "position class (first / interior / last, or the only segment): the set of state/action/disturbance "
     "components occurring in the normal form is a subset of the D-table entry; plus: nothing in the "
-    "dynamics is memoised or stored on elements (no dependence on earlier networks/steps)",
+    "dynamics is memoised or stored on elements (no dependence on earlier networks/steps)"
+    "; parameters of neighbours are restricted per role (lanes of entering / following link, turn rates of the leaving links, capacity of the origin); one-link rings; constructor conformance for links; argument order of the compiled function for a 12-segment link",
     "explanation": "The support of a term is a syntactic property of the function the code builds, hence of all "
     "numeric inputs at once; it is read off the normalised next-state term of every local topology class "
     "(cancelling occurrences disappear in the normal form) and compared with the neighbours the METANET "
